@@ -236,8 +236,12 @@ impl Eq for Rule {}
 
 impl fmt::Display for Rule {
     fn fmt(&self, f: &mut fmt::Formatter<'_>) -> fmt::Result {
-        let fmtted = serde_json::to_string_pretty(self).unwrap();
-        write!(f, "{}", fmtted)
+        // a rule with a custom strategy cannot be serialised (`#[serde(skip)]`): fall back to `Debug`
+        // instead of panicking inside a log statement (possibly while a manager lock is held)
+        match serde_json::to_string_pretty(self) {
+            Ok(fmtted) => write!(f, "{}", fmtted),
+            Err(_) => write!(f, "{:?}", self),
+        }
     }
 }
 
